@@ -41,7 +41,8 @@ std::string run_load(T &target, const std::string &bytes, Load load, Snap snapf,
 int main()
 {
   vita::log::reporting_level = vita::log::lOFF;
-  (void)c11::M();      // the symbol set is built first: same opcodes as in c11_ser
+  (void)c11::M();      // the symbol sets are built first, in the same order as in c11_ser:
+  (void)c11::L();      // same opcodes
   std::string line;
   while (std::getline(std::cin, line))
   {
@@ -108,6 +109,8 @@ int main()
                             [](const distribution<double> &y) { return enc(y); })
                 << "\n";
     }
+    else if (type == "lam")
+      std::cout << c12big::load_lambda(unsigned(tseed), bytes) << "\n";
     else if (type == "cache")
       std::cout << c12big::load_cache(unsigned(tseed), bytes) << "\n";
     else if (!c12big::dispatch(type, r, bytes))
